@@ -484,7 +484,13 @@ def nontrivial_shape(succ) -> bool:
 # --------------------------------------------------------------------------
 # naming
 
-STYLES = ["num", "perm", "bytecode", "alpha"]
+STYLES = ["num", "perm", "bytecode", "alpha", "gen"]
+
+# names in the generator's own namespace (blocks named like generated blocks
+# and regions); restructuring must never hand out one of them again
+GEN_STYLE_NAMES = [f"{k}_block_{i}" for i in range(3) for k in ("synth_asign", "synth_exit_latch", "synth_exit", "synth_head", "synth_tail", "synth_fill", "synth_return", "synth_exit_branch", "basic")] + [
+    f"{k}_region_{i}" for i in range(3) for k in ("loop", "head", "branch", "tail", "meta")
+]
 
 
 def restyle(succ, style="num", perm=None):
@@ -497,6 +503,15 @@ def restyle(succ, style="num", perm=None):
         names = {i: str(p[i]) for i in succ}
     elif style == "bytecode":
         names = {i: f"python_bytecode_block_{i}" for i in succ}
+    elif style == "gen":
+        p = perm if perm is not None else list(range(n))
+        pool = GEN_STYLE_NAMES
+        if n > len(pool):
+            names = {i: str(i) for i in succ}
+        else:
+            # a permutation of the pool prefix, so that names are distinct
+            order = sorted(range(len(pool)), key=lambda j: (p[j % n] if n else 0, j))
+            names = {i: pool[order[k]] for k, i in enumerate(sorted(succ))}
     elif style == "alpha":
         p = perm if perm is not None else list(range(n))
         names = {i: "b" + "abcdefghijklmnopqrstuvwxyz"[p[i] % 26] + str(p[i] // 26) for i in succ}
